@@ -53,8 +53,15 @@ def countWhere (l : List Bool) : Nat := (l.filter id).length
 def step (d : DS) (t : List String) : DS × List String :=
   let bad : DS × List String := (d, ["bad-op"])
   match d.st, t with
-  | none, ["new", m] =>
-    if m == "mt=0" ∨ m == "mt=1" then
+  | none, "new" :: m :: rest =>
+    -- optional third token: the parent configuration of the harness (hc / malloc / default / aligned /
+    -- norealloc / nocalloc / bare).  The model has ONE parent: a source of fresh blocks whose realloc
+    -- obeys the contract stated in props/c03.py ASSUMPTIONS; the run checks the real parents against it.
+    let okParent : Bool := match rest with
+      | [] => true
+      | [p] => ["hc", "malloc", "default", "aligned", "norealloc", "nocalloc", "bare"].contains p
+      | _ => false
+    if (m == "mt=0" || m == "mt=1") && okParent then
       let s := init (m == "mt=1")
       let d := { d with st := some s, tab := [], nextPage := 0, nextBig := 0 }
       (d, ["P new ok"] ++ status d s)
